@@ -13,6 +13,7 @@ import (
 	"net/http"
 	"net/url"
 	"path"
+	"reflect"
 	"regexp"
 	"runtime"
 	"runtime/debug"
@@ -73,6 +74,8 @@ type UpCall struct {
 	Owner       string
 	OwnerOp     int
 	Fg          bool // on the client's own goroutine
+	VerAt       int  // the resource's version and modification time when the request reached the origin
+	LMAt        time.Duration
 	SeqStart    uint64
 	SeqEnd      uint64
 	TStart      time.Duration
@@ -1034,6 +1037,7 @@ type bodyPoison struct{ io.ReadCloser }
 type reuseSlot struct {
 	req  *http.Request
 	snap ReqSnap
+	hdr  [][2]string // the selecting header fields the client last put on it
 }
 
 func (r *Run) exchange(g *kit.Gor, ci, oi int, name string, op *Op) {
@@ -1059,7 +1063,7 @@ func (r *Run) exchange(g *kit.Gor, ci, oi int, name string, op *Op) {
 	// it built the first time, whatever the transport may have done to the value in between
 	reuseKey := ""
 	if op.CancelNs == 0 && op.Cond == "" && !op.Poison {
-		reuseKey = fmt.Sprintf("%s|%s|%d|%d|%s|%v|%v", name, method, op.Res, op.Spelling, op.CC, op.Hdr, op.Range)
+		reuseKey = fmt.Sprintf("%s|%s|%d|%d|%s|%v", name, method, op.Res, op.Spelling, op.CC, op.Range)
 	}
 	var reused *reuseSlot
 	if op.Reuse && reuseKey != "" {
@@ -1072,6 +1076,20 @@ func (r *Run) exchange(g *kit.Gor, ci, oi int, name string, op *Op) {
 	if reused != nil {
 		req = reused.req
 		r.probe("request-value-reused")
+		if !reflect.DeepEqual(reused.hdr, op.Hdr) {
+			// the client changes the selecting header fields of its own request value in place before sending it
+			// again (legal once the previous RoundTrip has returned and its body is closed)
+			for _, kv := range reused.hdr {
+				req.Header.Del(kv[0])
+				reused.snap.Header.Del(kv[0])
+			}
+			for _, kv := range op.Hdr {
+				req.Header.Add(kv[0], kv[1])
+				reused.snap.Header.Add(kv[0], kv[1])
+			}
+			reused.hdr = op.Hdr
+			r.probe("request-value-reused-changed")
+		}
 	} else {
 		req, err = http.NewRequestWithContext(ctx, method, BuildURL(res, op.Spelling), nil)
 	}
@@ -1105,12 +1123,15 @@ func (r *Run) exchange(g *kit.Gor, ci, oi int, name string, op *Op) {
 	e := &Exch{Client: ci, OpIdx: oi, Op: op, Name: name, Req: snapReq(req), TInv: r.Sim.Now(), Epoch: r.Sim.Epoch()}
 	if reused != nil {
 		e.Req = reused.snap
+		e.Req.Header = reused.snap.Header.Clone()
 	} else if reuseKey != "" {
 		r.mu.Lock()
 		if r.reqReuse == nil {
 			r.reqReuse = map[string]*reuseSlot{}
 		}
-		r.reqReuse[reuseKey] = &reuseSlot{req: req, snap: e.Req}
+		sn := e.Req
+		sn.Header = e.Req.Header.Clone()
+		r.reqReuse[reuseKey] = &reuseSlot{req: req, snap: sn, hdr: op.Hdr}
 		r.mu.Unlock()
 	}
 	r.mu.Lock()
